@@ -65,6 +65,11 @@ def run(ctx):
 
 
 def run_cfg(ctx, fx):
+    # R09.6 one subscriber, one key: every handle of an actor carries the id of that actor's context — the address and the
+    # context are given the same id at birth (shared with C15), so a subscription made through the context and an
+    # unsubscribe / re-subscribe made through a handle derived from the address meet in the same table entry
+    from props import c15 as _c15
+    _c15.check_birth(ctx, fx, fx.cfg, "R09.6")
     # R09.1
     o = fx.owns_of("broker::Broker", "adt")
     if ctx.require(o is not None, "R09.1", "Broker", "broker::Broker not found"):
